@@ -1,6 +1,7 @@
 import PortusModel.Props.C20
 import PortusModel.Props.C20Layout
 import PortusModel.Lemmas.Accept2
+import PortusModel.Props.Tables
 #print axioms Portus.Lang.Typing.well_typed_accepted
 #print axioms Portus.Lang.Typing.well_typed_accepted_upd
 #print axioms Portus.Lang.Typing.well_typed_image
@@ -38,3 +39,4 @@ import PortusModel.Lemmas.Accept2
 #print axioms Portus.C20.spelling_table
 #print axioms Portus.C20.spellings_cover
 #print axioms Portus.Lang.compile_uid_indep
+#print axioms Portus.Tables.src_opTable_eq
